@@ -197,6 +197,35 @@ def run(tier="quick", seed=0):
             if why and len(viol) < 6:
                 viol.append({"id": "send_%d" % ev, "clause": "pairs_sent_in_order", "why": why, "inputs": {"targets": {"%d,%d" % k: sorted(v) for k, v in t.items()}}})
             distinct += 1
+        # several applications in ONE call: every application is followed by its OWN pairs (each list in increasing order)
+        path_b = os.path.join(tmpd, "b.aplx")
+        with open(path_b, "wb") as f:
+            f.write(bytes(range(1, 40)))
+        for i in range(0, len(cases) - 1, 2 if tier == "quick" else 1):
+            ta, tb = cases[i], cases[i + 1]
+            ev += 1
+            del sent[:]
+            try:
+                mc.flood_fill_aplx({path: ta, path_b: tb}, app_id=30, wait=True)
+            except Exception as e:      # noqa
+                if len(viol) < 6:
+                    viol.append({"id": "send2_%d" % ev, "clause": "pairs_sent_in_order", "why": "flood_fill_aplx with two applications raised %s: %s" % (type(e).__name__, e),
+                                 "inputs": {"targets_a": {"%d,%d" % k: sorted(v) for k, v in ta.items()}, "targets_b": {"%d,%d" % k: sorted(v) for k, v in tb.items()}}})
+                continue
+            # split the stream at the flood-fill start packets
+            groups = []
+            for (c, a1, a2, a3) in sent:
+                if c == int(SCPCommands.nearest_neighbour_packet) and (a1 >> 24) == int(NNCommands.flood_fill_start):
+                    groups.append([])
+                elif c == int(SCPCommands.nearest_neighbour_packet) and (a1 >> 24) == int(NNCommands.flood_fill_core_select) and groups:
+                    groups[-1].append((a2, a1 & 0x3ffff))
+            want = [sorted(compress_flood_fill_regions(t), key=lambda rc: (rc[0] << 32) | rc[1]) for t in (ta, tb)]
+            distinct += 1
+            if (groups != want and groups != want[::-1]) and len(viol) < 6:
+                viol.append({"id": "send2_%d" % ev, "clause": "pairs_sent_in_order",
+                             "why": "two applications loaded in one call: the core-select packets after the two flood-fill starts are %r; the applications' own pairs are %r" % (
+                                 [["%08x:%05x" % q for q in g] for g in groups], [["%08x:%05x" % q for q in g] for g in want]),
+                             "inputs": {"targets_a": {"%d,%d" % k: sorted(v) for k, v in ta.items()}, "targets_b": {"%d,%d" % k: sorted(v) for k, v in tb.items()}}})
     finally:
         import shutil
         shutil.rmtree(tmpd, ignore_errors=True)
@@ -266,6 +295,13 @@ def run(tier="quick", seed=0):
                 t.setdefault(c, set()).update(cores)
             probe.update(around([cells[0], cells[-1]]))
         check(t, "blocks", probe)
+    # (g') every core number in use in one node: chips whose 18 cores are all selected, alone or with different selections per core
+    for (bx, by) in ((5, 9), (0, 0), (255, 255), (64, 3)):
+        check({(bx, by): set(range(18))}, "allcores", around([(bx, by)]))
+        nb = (bx + 1 if bx < 255 else bx - 1, by)
+        check({(bx, by): set(range(9)), nb: set(range(4, 18))}, "allcores2", around([(bx, by), nb]))
+        check({(bx, by): set(range(18)), nb: {0}}, "allcores3", around([(bx, by), nb]))
+        check({(bx, by): set(range(1, 18)), nb: {0, 17}}, "allcores4", around([(bx, by), nb]))
     # (h) a core named twice: lists of cores with repeats through compress_flood_fill_regions, and add_core repeated on one tree
     #     for a core inside a block that is already completely selected (4x4, 16x16 and - thorough - 64x64 blocks)
     for size in (4, 16) if tier == "quick" else (4, 16, 64):
@@ -309,6 +345,6 @@ def run(tier="quick", seed=0):
                                  "why": "%dx%d block at (%d,%d), core %d, three chips list the core twice: %s" % (size, size, bx, by, core, why),
                                  "inputs": {"block": [bx, by, size], "core": core, "chips_naming_the_core_twice": again}})
     return {"name": "c12_regions", "evaluations": ev, "distinct_nontrivial": distinct,
-            "rule": "compress_flood_fill_regions (the request in rotating forms: coordinates as python / numpy 32- and 64-bit integers, cores as sets / lists / one-shot iterators / generators) decoded by an independent reading of the region word: all subsets of 2x2 chips x cores {1,17} at six positions (incl. level boundaries); full, one-short, full+sparse-second-core and full+outside blocks of 1, 4, 16, 64 chips square for three core pairs at two positions; seeded mixes of neighbouring chips with different core sets; checks nothing missing, nothing extra (neighbouring chips probed), nothing twice, strictly increasing (region<<32|mask), well formed; get_region_for_chip for every chip x level against the documented word; the core-select packets the real flood_fill_aplx sends (recording transport) for two/three-chip targets with cores 16/17 and seeded mixes (all fills on ONE controller): the pairs produced, in increasing order; one RegionCoreTree used over time (2-4 batches of add_core, the pairs read twice after every batch): exactly the cores added so far; unions of 2-4 whole 4x4 / 16x16 blocks and single chips (often of the 4x4 block at the origin of the parent block) whose core sets come from a small pool, so that equal core masks meet at different levels; a core named twice (lists with repeats; add_core repeated inside a completely selected 4x4 / 16x16 (thorough 64x64) block)",
+            "rule": "compress_flood_fill_regions (the request in rotating forms: coordinates as python / numpy 32- and 64-bit integers, cores as sets / lists / one-shot iterators / generators) decoded by an independent reading of the region word: all subsets of 2x2 chips x cores {1,17} at six positions (incl. level boundaries); full, one-short, full+sparse-second-core and full+outside blocks of 1, 4, 16, 64 chips square for three core pairs at two positions; seeded mixes of neighbouring chips with different core sets; checks nothing missing, nothing extra (neighbouring chips probed), nothing twice, strictly increasing (region<<32|mask), well formed; get_region_for_chip for every chip x level against the documented word; the core-select packets the real flood_fill_aplx sends (recording transport) for two/three-chip targets with cores 16/17 and seeded mixes (all fills on ONE controller): the pairs produced, in increasing order, also with two applications in one call (each followed by its own pairs); one RegionCoreTree used over time (2-4 batches of add_core, the pairs read twice after every batch): exactly the cores added so far; unions of 2-4 whole 4x4 / 16x16 blocks and single chips (often of the 4x4 block at the origin of the parent block) whose core sets come from a small pool, so that equal core masks meet at different levels; chips with all 18 cores selected (every core number in use in one node); a core named twice (lists with repeats; add_core repeated inside a completely selected 4x4 / 16x16 (thorough 64x64) block)",
             "bound": "structured families listed in the rule; %d seeded mixes" % (300 if tier == "quick" else 3000), "exhaustive": False,
             "label": "bounded", "samples": samples, "violations": viol, "seconds": round(time.time() - t0, 2)}
